@@ -248,6 +248,39 @@ def _mk_faulty():
     return ExpressionSolver(FaultyAtom)
 
 
+REENTRY = {"inner": None, "depth": 0, "problems": []}
+
+
+class ReentrantAtom(FaultyAtom):
+    """An atom whose constructor uses the library itself: while the outer solve() is half-way
+    through its expression, another long-lived solver solves two small expressions.  User code
+    behind a seam is ordinary code; that it runs in the middle of an operation is the point."""
+
+    def __init__(self, value):
+        if isinstance(value, str) and REENTRY["depth"] == 0:
+            REENTRY["depth"] += 1
+            fired = InjectedFault.fired
+            try:
+                if REENTRY["inner"] is None:
+                    REENTRY["inner"] = ExpressionSolver(FaultyAtom)
+                for expr, want in (("1+2*3", 7.0), ("(2+foo)*2", 10.0)):
+                    got = REENTRY["inner"].solve(expr).value
+                    if got != want:
+                        REENTRY["problems"].append([expr, want, repr(got)])
+            except BaseException as e:
+                if InjectedFault.fired and not fired:
+                    raise            # the injected fault landed inside the nested call
+                REENTRY["problems"].append(["nested solve", "a value",
+                                            type(e).__name__ + repr(e.args)[:120]])
+            finally:
+                REENTRY["depth"] -= 1
+        FaultyAtom.__init__(self, value)
+
+
+def _mk_reentrant():
+    return ExpressionSolver(ReentrantAtom)
+
+
 def _mk_string():
     operators = {'add': OperatorAdd, 'gt': OperatorGt, 'par': OperatorPar}
     steps = [dict(operators=['par'], otype=Otype.ARGS),
@@ -374,9 +407,10 @@ KINDS = {
     "subset": (_mk_subset, "subset"),
     "steps": (_mk_steps, "numeric"),
     "unit": (_mk_unit, "unit"),
+    "reentrant": (_mk_reentrant, "numeric"),
 }
 KIND_ORDER = ["base", "faulty", "string", "subset", "steps", "unit", "factory", "steps2",
-              "arrays", "customop", "nopar", "loose", "inplace"]
+              "arrays", "customop", "nopar", "loose", "inplace", "reentrant"]
 
 
 # expression generator ---------------------------------------------------------
@@ -769,6 +803,7 @@ class SolverMachine(Machine):
         self.abstract = "new"
         InjectedFault.arm(None)
         reset_arrays()
+        REENTRY.update(inner=None, depth=0, problems=[])
         # pristine outcomes, before any history of this run
         self.pristine = {}
         for k in self.cfg["kinds"]:
@@ -907,6 +942,15 @@ class SolverMachine(Machine):
         if op.get("tf"):
             self.stats.fault("text_" + op["tf"].split("@")[0], want[0] == "raise")
 
+        if REENTRY["problems"]:
+            probs, REENTRY["problems"] = REENTRY["problems"], []
+            raise Violation(
+                "nested_solve_inside_an_atom_constructor_wrong",
+                {"instance": kind, "outer_expr": expr, "fault": fault,
+                 "nested [expr, want, got]": probs[:3]},
+                signature=f"C02/reentry/{kind}")
+        if kind == "reentrant":
+            self.stats.fault("solver_used_from_inside_an_atom_constructor", True)
         if got != want:
             raise Violation(
                 "history_dependence",
